@@ -28,7 +28,7 @@ func printGuarded(p *ast.Program) (s string, panicked any) {
 // empty `else {}` block, so the re-parsed AST has Else = nil there.
 //
 // Likewise FS13: an empty `pre {}` / `post {}` block is omitted by the printer; FS19: an empty transaction parameter list `()`.
-func dropEmptyElse(v any, knownFS9, knownFS13 bool) (any, bool) {
+func dropEmptyElse(v any, knownFS9, knownFS13, knownFS19 bool) (any, bool) {
 	changed := false
 	var walk func(v any) any
 	walk = func(v any) any {
@@ -313,8 +313,18 @@ func hasNonNominalInstantiation(v any) bool {
 	return found
 }
 
+type knownFunc func(string) bool
+
+func (f knownFunc) Known(id string) bool { return f(id) }
+
 // knownC38 returns the id of the known finding whose predicate the program matches ("" if none).
 func knownC38(rec *evid.Rec, j1 any, msg, printed string) string {
+	return knownPrinterDefect(rec.Known, j1, msg, printed)
+}
+
+// knownPrinterDefect is shared with C39 (the formatter renders through the same Doc methods).
+func knownPrinterDefect(isKnown func(string) bool, j1 any, msg, printed string) string {
+	rec := knownFunc(isKnown)
 	switch {
 	case rec.Known("FS23") && strings.Contains(msg, "restricted types have been removed") && (strings.Contains(printed, "< fun") || strings.Contains(printed, "< view fun")):
 		// FS23: `a < fun () {}` (less-than with a function expression without return type): the parser's speculative
@@ -361,7 +371,7 @@ type c38Info struct {
 }
 
 // roundTrip applies the C38 oracle to one source text. msg == "" means it holds (or the source does not parse).
-var knownFS13, knownFS19 bool // set by TestC38 from the findings list
+var knownFS13, knownFS19G bool // set by TestC38 from the findings list
 
 func roundTrip(src []byte, knownFS9 bool) (msg string, info c38Info) {
 	info.kinds = map[string]int{}
@@ -395,8 +405,8 @@ func roundTrip(src []byte, knownFS9 bool) (msg string, info c38Info) {
 	if err != nil {
 		return "AST of the printed program cannot be serialised: " + err.Error(), info
 	}
-	if knownFS9 || knownFS13 || knownFS19 {
-		j1, info.usedFS9 = dropEmptyElse(j1, knownFS9, knownFS13)
+	if knownFS9 || knownFS13 || knownFS19G {
+		j1, info.usedFS9 = dropEmptyElse(j1, knownFS9, knownFS13, knownFS19G)
 	}
 	if d := firstDiff("program", j1, j2); d != "" {
 		return "AST differs after print+parse at " + d, info
@@ -472,11 +482,11 @@ func TestC38(t *testing.T) {
 		"parenthesisation/escape decision (nested operator operands, casts, unary, conditional, string escapes/templates, optional/reference/function types). Distinct by source text.")
 	knownFS9 := rec.Known("FS9")
 	knownFS13 = rec.Known("FS13") && evid.ReplayFile() == ""
-	knownFS19 = rec.Known("FS19") && evid.ReplayFile() == ""
-	if knownFS19 {
-		knownFS19 = false
+	knownFS19G = rec.Known("FS19") && evid.ReplayFile() == ""
+	if knownFS19G {
+		knownFS19G = false
 		m, _ := roundTrip([]byte("transaction() { }"), false)
-		knownFS19 = true
+		knownFS19G = true
 		rec.ReportKnown("FS19", m != "")
 	}
 	if f := evid.ReplayFile(); f != "" {
